@@ -345,6 +345,8 @@ type atStmtOpts struct {
 	nullThenUqHit bool
 	// INSERT: every value of the VALUES list is, independently, a literal or a bound argument
 	mixedArgs bool
+	// UPDATE / INSERT: nullable columns get NULL half of the time (instead of one time in six)
+	nullBias bool
 }
 
 // atGenUpdate: UPDATE t SET <1..2 value columns> WHERE ...
@@ -362,7 +364,7 @@ func atGenUpdate(r *vc.Rand, t *atTable, o atStmtOpts) atStmt {
 		ci := vcs[perm[i]]
 		c := t.Def.Cols[ci]
 		var v interface{}
-		if c.Nullable && r.Intn(6) == 0 {
+		if c.Nullable && ((o.nullBias && r.Bool()) || (!o.nullBias && r.Intn(6) == 0)) {
 			v = nil
 		} else {
 			v = atColKinds[t.Kinds[ci]].gen(r)
@@ -502,7 +504,7 @@ func atGenInsert(r *vc.Rand, t *atTable, o atStmtOpts, nrows int, seq *int) atSt
 				case "ka":
 					v = int64(5000 + *seq)
 				}
-			} else if c.Nullable && r.Intn(6) == 0 {
+			} else if c.Nullable && ((o.nullBias && r.Bool()) || (!o.nullBias && r.Intn(6) == 0)) {
 				v = nil
 			} else {
 				v = atColKinds[t.Kinds[ci]].gen(r)
